@@ -168,7 +168,7 @@ def gen_sm(ctx, rng):
         cls, (rng.choice(["sq", "id", "abs"]), rng.choice(["mean", "sum", "max"])))
     return dict(kind="sm", cls=cls, space=space, sets=sets, static=static, interval=interval, net=net, param=param,
                 data=data, resid=resid, ders=ders, err=err, red=red, calls=calls, weight=js(cc.dy(rng, 1, 8, 2)),
-                sampler="list")
+                sampler="list", startup=gen_startup(rng, 0.25, 0.04))
 
 
 TP_SPACES = dict(interval=[["x", 1]], par2d=[["x", 2]], product=[["x", 1], ["t", 1]], dependent=[["x", 1], ["t", 1]])
@@ -298,6 +298,26 @@ ERR_FNS = dict(sq=_sq, id=lambda tp, torch: torch.nn.Identity(),
 RED_FNS = dict(mean=lambda torch: torch.mean, sum=lambda torch: torch.sum, max=lambda torch: torch.max)
 
 
+def gen_startup(rng, p_hook, p_fit):
+    r = rng.random()
+    return "fit" if r < p_fit else "hook" if r < p_fit + p_hook else None
+
+
+def do_startup(case, conds, out, obs_lists=()):
+    """between construction and the evaluations a training may be started with the condition(s): the Solver's
+    start-up hook (`_move_static_data`), or a real one-step fit with learning rate 0"""
+    if not case.get("startup"):
+        return True
+    try:
+        cc.training_start(conds, fit=case["startup"] == "fit")
+    except Exception as e:  # noqa
+        out["errors"].append(("training start (" + case["startup"] + ")", classify_exc(e)))
+        return False
+    for l in obs_lists:
+        del l[:]
+    return True
+
+
 def classify_exc(e):
     msg = str(e)
     if isinstance(e, AssertionError) and "is necessary" in msg:
@@ -350,6 +370,8 @@ def run_sm(case):
     out["weight_ok"] = cond.weight == float(F(case["weight"]))
     out["construct_points"] = list(rec.calls)
     out["data_calls_at_construct"] = {k: len(v) for k, v in data_obs.items()}
+    if not do_startup(case, [cond], out, [obs.resid_args, obs.resid_out]):
+        return out
     for k in range(case["calls"]):
         before = len(rec.calls)
         n_obs = len(obs.resid_args)
@@ -495,6 +517,11 @@ def expected_args_sm(case, p):
 TOL = dict(rel=1e-9, abs=1e-12)
 
 
+def count_startup(rep, case):
+    if case.get("startup"):
+        rep.count("evaluated-after-" + ("one-step-fit" if case["startup"] == "fit" else "training-start-hook") + ":" + case["kind"])
+
+
 def count_shapes(rep, fns):
     """input-distribution histogram of the signature shapes of the user functions of a case"""
     for f in fns:
@@ -518,6 +545,7 @@ def judge_sm(rep, case, res, replies):
     rep.count("with-derivatives" if case["ders"] else "no-derivatives")
     rep.count("space-order-permuted" if case["net"]["in"] != case["space"] else "space-order-same")
     count_shapes(rep, [case["resid"]] + case["data"])
+    count_startup(rep, case)
     if res["errors"]:
         for where, what in res["errors"]:
             rep.fail(f"{cls} condition raised at {where}: {what}", case)
@@ -778,7 +806,8 @@ def gen_per(ctx, rng):
     custom = rng.random() < 0.3
     err, red = (rng.choice(["sq", "id", "abs"]), rng.choice(["mean", "sum", "max"])) if custom else ("sq", "mean")
     return dict(kind="per", pv=pv, a=js(a), b=js(b), bspace=bspace, net=net, param=param, data=data, resid=resid,
-                n=n, static=static, calls=calls, sets=sets, err=err, red=red, custom=custom)
+                n=n, static=static, calls=calls, sets=sets, err=err, red=red, custom=custom,
+                startup=gen_startup(rng, 0.4, 0.08))
 
 
 def run_per(case):
@@ -820,6 +849,8 @@ def run_per(case):
         out["errors"].append(("construct", classify_exc(e)))
         return out
     rec_l, rec_r = Recorder(cond.left_sampler), Recorder(cond.right_sampler)
+    if not do_startup(case, [cond], out, [obs.resid_args, obs.resid_out]):
+        return out
     for k in range(case["calls"]):
         bl, br, bb = len(rec_l.calls), len(rec_r.calls), len(rec_b.calls) if rec_b else 0
         n_obs = len(obs.resid_args)
@@ -915,6 +946,7 @@ def judge_per(rep, case, res, replies):
     rep.count("per:" + ("static" if case["static"] else "empty-sampler" if not case["bspace"] else "non-static"))
     rep.count(f"per:data-fns={len(case['data'])}")
     count_shapes(rep, [case["resid"]] + case["data"])
+    count_startup(rep, case)
     if any(case["pv"] in [n for n, _ in d["defaults"]] for d in case["data"]):
         rep.count("per:data-fn-with-defaulted-periodic-variable" + (":static" if case["static"] else ""))
     if res["errors"]:
@@ -1032,7 +1064,8 @@ def gen_don(ctx, rng):
         rng.shuffle(order)
         steps += [[k, j] for j in order]
     return dict(kind="don", sv=sv, xspace=xspace, trunk_in=trunk_in, pspace=pspace, fout=fout, fn=fn, out=out_space,
-                nk=nk, zs=zs, W=W, feats=feats, F=F_, calls=calls, psets=psets, subs=subs, steps=steps)
+                nk=nk, zs=zs, W=W, feats=feats, F=F_, calls=calls, psets=psets, subs=subs, steps=steps,
+                startup=gen_startup(rng, 0.3, 0.0))
 
 
 def don_net(case):
@@ -1096,6 +1129,8 @@ def run_don(case, only=None):
             return out
         out["construct_points"].append(list(rec.calls))
         conds.append((cond, rec, obs))
+    if not do_startup(case, [c[0] for c in conds if c is not None], out):
+        return out
     for k, j in case["steps"]:
         if conds[j] is None:
             continue
@@ -1148,6 +1183,7 @@ def tile(rows, total):
 def judge_don(rep, case, res, replies):
     rep.count(f"don:conditions-sharing-net-and-function-set={len(case['subs'])}")
     rep.count(f"don:iterations={case['calls']}")
+    count_startup(rep, case)
     rep.count(f"don:functions={case['F']}")
     count_shapes(rep, [case["fn"]] + [f for sub in case["subs"] for f in [sub["resid"]] + sub["data"]])
     if res["errors"]:
